@@ -182,19 +182,29 @@ example :
        (true, [.listOpen, .ntOpen 9 0 2, .term 1 0 0 1, .term 2 0 1 2, .close, .ntOpen 9 0 3, .term 1 0 0 1, .term 3 0 1 3, .close, .empty 0, .close])] := by
   decide
 
-/-- the source text of every list/node primitive the machine transcribes — AppendNode, NodeList.Append,
-    SetReaderPos on each node kind and on lists, Memoize with its capacity clip, the copying result
-    handler, the sequence buffer write, Any, Optional — is what it was when the machine was written
-    (regenerated from the repository on every run into Generated/FactsAst.lean) -/
+/-- what the machine transcribes is what the source says now (regenerated from the repository on every run into
+    Generated/FactsAst.lean):
+    * the primitives that are NOT translated — ast.SetReaderPos and the SetReaderPos methods of the node kinds and of lists —
+      as normalised source text;
+    * AppendNode, (*NodeList).Append, the copying result handler and the sequence buffer write of parseNext — whose bodies
+      are translated at value level on every run and proved equal to the model's functions (Props/C01P.lean,
+      `c01p_context_cache_append`, `c01p_sequence_machinery`, built and audited with this property) — by their SLICE-LEVEL
+      skeleton: the calls of append / copy / make, the slice literals and slice expressions, the element writes and the calls
+      of the list primitives, in source order, local variables abstracted (helpers of the package looked through).  That is
+      what the slice-level machine needs beyond the value semantics, and a restructuring of the control flow (type switch vs.
+      assertion chain, an extracted helper, a renamed variable, an early return) does not change it, while an added, removed,
+      reordered or retargeted allocation / copy / in-place write does.  (The four full-text facts that stood here for these
+      functions are subsumed by translation + skeleton.)
+    * Memoize with its capacity clip before the store (structural; the clip may stand in a helper), Any, Optional. -/
 theorem c07_source_facts_ast :
-    FactsAst.appendNodeBody = "{ifn1==nil{returnn2}ifn2==nil{returnn1}switchn:=n1.(type){caseNodeList:n.Append(n2)returnndefault:nl:=NodeList([]parsley.Node{n1})nl.Append(n2)returnnl}}" ∧
+    FactsAst.appendNodeSliceOps = ["_.Append(_)", "_:=NodeList([]parsley.Node{_})", "_.Append(_)"] ∧
     FactsAst.setReaderPosBody = "{switchn:=node.(type){caseReaderPosSetter:n.SetReaderPos(f)caseEmptyNode:returnEmptyNode(f(parsley.Pos(n)))default:panic(\"invalidnodetypeforSetReaderPos(),youneedtoimplementtheast.ReaderPosSetterinterface\")}returnnode}" ∧
-    FactsAst.nodeListAppendBody = "{switchv:=node.(type){caseNodeList:for_,node:=rangev{nl.Append(node)}caseEmptyNode:for_,node:=range*nl{ifnode==v{return}}*nl=append(*nl,v)default:*nl=append(*nl,v)}}" ∧
+    FactsAst.nodeListAppendSliceOps = ["_.Append(_)", "*_=append(*_,_)", "*_=append(*_,_)"] ∧
     FactsAst.nodeListSetReaderPosBody = "{fori,node:=rangenl{nl[i]=SetReaderPos(node,f)}}" ∧
     FactsAst.terminalSetReaderPosBody = "{t.readerPos=f(t.readerPos)}" ∧
     FactsAst.nonTerminalSetReaderPosBody = "{n.readerPos=f(n.readerPos)}" ∧
-    FactsAst.seqResultHandlerBody = "{returnfunc(posparsley.Pos,tokenstring,nodes[]parsley.Node,interpreterparsley.Interpreter)parsley.Node{l:=len(nodes)switchl{case0:returnast.NewEmptyNonTerminalNode(token,pos,interpreter)case1:ifreturnSingle{returnnodes[0]}}nodesCopy:=make([]parsley.Node,l)copy(nodesCopy,nodes)returnast.NewNonTerminalNode(token,nodesCopy,interpreter)}}" ∧
-    FactsAst.seqParseNextBody = "{iflen(s.nodes)<depth+1{s.nodes=append(s.nodes,node)}else{s.nodes[depth]=node}ifnode.ReaderPos()>pos{leftRecCtx=data.EmptyIntMapmergeCurtailingParsers=false}ifs.parse(depth+1,ctx,leftRecCtx,node.ReaderPos(),mergeCurtailingParsers){returntrue}returnfalse}" ∧
+    FactsAst.seqResultHandlerSliceOps = ["_:=make([]parsley.Node,_)", "copy(_,_)"] ∧
+    FactsAst.seqParseNextSliceOps = ["_.nodes=append(_.nodes,_)", "_.nodes[_]=_"] ∧
     FactsAst.memoizeClips = true ∧ FactsAst.memoizeClipsBeforeSave = true ∧
     FactsAst.anyAppendNodeCalls = ["node,node"] ∧ FactsAst.optionalAppendNodeCalls = ["node,empty"] :=
   ⟨rfl, rfl, rfl, rfl, rfl, rfl, rfl, rfl, rfl, rfl, rfl, rfl⟩
